@@ -391,7 +391,7 @@ func monC12(w *World) {
 		sigs = append(sigs, nil, emptySig(w.plan.Crypto))
 		views := []hotstuff.View{0, 1, 2, 255, 256, 1 << 31, 1<<32 - 1, 1 << 32, 1<<63 - 1, 1 << 63, math.MaxUint64}
 		ids := []hotstuff.ID{0, 1, hotstuff.ID(w.plan.N), 255, 256, 65535, 1 << 31, math.MaxUint32}
-		times := []time.Time{time.Unix(0, 0), time.Unix(0, 1), time.Unix(1, 999999999), time.Unix(1<<31, 5), time.Unix(253402300799, 999999999),
+		times := []time.Time{{}, time.Unix(0, 0), time.Unix(0, 1), time.Unix(1, 999999999), time.Unix(1<<31, 5), time.Unix(253402300799, 999999999),
 			time.Date(1970, 1, 1, 0, 0, 0, 0, time.UTC), time.Date(2262, 4, 11, 23, 47, 16, 854775807, time.UTC), time.Unix(-1, 0), time.Unix(0, -1), w.t0}
 		batches := []*clientpb.Batch{nil, {}, {Commands: []*clientpb.Command{}}, {Commands: []*clientpb.Command{{ClientID: math.MaxUint32, SequenceNumber: math.MaxUint64, Data: nil}}},
 			{Commands: []*clientpb.Command{{ClientID: 1, SequenceNumber: 1, Data: []byte{}}, {ClientID: 1, SequenceNumber: 2, Data: bytes.Repeat([]byte{0xff}, 300)}}}}
